@@ -327,8 +327,38 @@ pub fn def() -> CheckDef {
         sections: vec![
             Box::new(PropSection { name: "parse", rule: "reference encoding -> parse -> values", strategy: parse_strategy, cases: (40_000, 1_500_000), check: check_parse }),
             Box::new(PropSection { name: "build", rule: "values -> build -> bytes == reference", strategy: build_strategy, cases: (40_000, 1_500_000), check: check_build }),
+            Box::new(PropSection { name: "opt", rule: "OPT pseudo-record both directions", strategy: opt_strategy, cases: (10_000, 300_000), check: check_opt }),
             Box::new(PropSection { name: "rules", rule: "structural rules and byte mutations", strategy: rule_strategy, cases: (40_000, 1_500_000), check: check_rule }),
             Box::new(EnumSection { name: "samples", rule: "externally produced encodings", enumerate: enum_samples, check: check_sample, exhaustive: true }),
         ],
     }
+}
+
+// ---- OPT: carried by the packet's EDNS data, laid out per RFC 6891
+
+/// (edns, named rcode, another additional record?)
+type OptIn = (AEdns, u16, bool);
+
+fn opt_strategy(_t: Tier) -> BoxedStrategy<OptIn> {
+    (gen::aedns(), select(NAMED_RCODES.to_vec()), any::<bool>()).boxed()
+}
+
+fn check_opt(input: &OptIn, case: &mut Case) -> Result<(), Fail> {
+    let (edns, rcode, other) = input;
+    case.nontrivial = true;
+    case.class("type:OPT");
+    let mut p = APacket { id: 3, flags: 0x8000, rcode: *rcode, edns: Some(edns.clone()), ..Default::default() };
+    if *other {
+        p.additionals.push(trailing());
+    }
+    let refwire = encode_message(&p, &EncOpts::plain());
+    // parse direction
+    let pk = parse(&refwire)?.map_err(|e| Fail::new("c10:rejected:OPT", format!("canonical OPT encoding rejected: {:?}; wire {}", e, hex(&refwire))))?;
+    let o = lib("observe", || observe(&pk))?;
+    ensure!(o == p, "c10:parse-values:OPT", "OPT parsed differently: {}", diff(&p, &o));
+    // build direction
+    let built = lib("build", || build(&p))?.map_err(|e| Fail::new("harness:build", e))?;
+    let out = lib("build_bytes_vec", || built.build_bytes_vec())?.map_err(|e| Fail::new("c10:build-failed", format!("{:?}", e)))?;
+    ensure!(out == refwire, "c10:build-bytes:OPT", "message with OPT {} expected {}", hex(&out), hex(&refwire));
+    Ok(())
 }
